@@ -58,3 +58,51 @@ func Verif_C05_load() {
 	verifAssert(int64(c.UserName) == val, "and the field gets the document's value")
 	verifReach("loaded")
 }
+
+type verifItem struct {
+	HostName string `json:"hostName"`
+}
+
+type verifDeep struct {
+	Items [][]verifItem `json:"items"`
+	One   verifItem     `json:"one"`
+	List  []verifItem   `json:"list"`
+}
+
+// keys are canonicalised at every depth of the document: maps in maps, maps in
+// lists, maps in lists of lists.
+func Verif_C05_deepkeys() {
+	inner := func() map[string]any { return map[string]any{"host_name": "h"} }
+	doc := map[string]any{
+		"Items": []any{[]any{inner()}},
+		"one":   inner(),
+		"List":  []any{inner()},
+	}
+	m := toCamelCaseKeyMap(doc)
+	one, ok := m["one"].(map[string]any)
+	verifAssert(ok && one["hostName"] == "h", "a key inside a nested map is canonicalised")
+	list, ok := m["list"].([]any)
+	verifAssert(ok && len(list) == 1, "list is kept")
+	if ok && len(list) == 1 {
+		e, ok := list[0].(map[string]any)
+		verifAssert(ok && e["hostName"] == "h", "a key inside a map inside a list is canonicalised")
+	}
+	items, ok := m["items"].([]any)
+	verifAssert(ok && len(items) == 1, "outer list is kept")
+	if ok && len(items) == 1 {
+		in, ok := items[0].([]any)
+		verifAssert(ok && len(in) == 1, "inner list is kept")
+		if ok && len(in) == 1 {
+			e, ok := in[0].(map[string]any)
+			verifAssert(ok && e["hostName"] == "h", "a key inside a map inside a list of lists is canonicalised")
+		}
+	}
+	var c verifDeep
+	err := mapping.UnmarshalJsonMap(m, &c, mapping.WithCanonicalKeyFunc(toCamelCase))
+	verifAssert(err == nil, "the loader accepts snake_case keys at every depth")
+	if err == nil {
+		verifAssert(c.One.HostName == "h" && len(c.List) == 1 && c.List[0].HostName == "h", "nested struct and list-of-struct leaves get the document's values")
+		verifAssert(len(c.Items) == 1 && len(c.Items[0]) == 1 && c.Items[0][0].HostName == "h", "list-of-lists-of-struct leaves get the document's values")
+	}
+	verifReach("deep")
+}
